@@ -29,6 +29,7 @@ Definition pm_f32 (s : sx) : sx :=
           else if op =? 10 then ok (SZ (fround a)) else if op =? 11 then ok (sx_list SZ (ffmt a b))
           else if op =? 13 then ok (SZ (fabs a)) else if op =? 14 then ok (SZ (fneg a))
           else if op =? 15 then ok (SZ (f_of_usize a)) else if op =? 16 then ok (SZ (f_to_usize a))
+          else if op =? 19 then ok (sx_list SZ (ffmt (-1) a))
           else if op =? 17 then sx_res SZ (libm1 b a)
           else if op =? 18 then sx_res SZ (libm2 FN_POWF a b)
           else sx_bad
